@@ -475,6 +475,20 @@ pub fn quantize_vector_linear(v: &[f32]) -> Vec<i8> {
         return vec![0i8; v.len()];
     }
 
+    if !range.is_finite() {
+        // max - min overflows f32 (e.g. [3.4e38, -1e38]): every component would be coded
+        // -128 or 0. Normalize in f64 instead.
+        let (min, range) = (f64::from(min), f64::from(max) - f64::from(min));
+        return v
+            .iter()
+            .map(|&x| {
+                let normalized = (f64::from(x) - min) / range; // [0, 1]
+                let scaled = normalized * 255.0 - 128.0; // [-128, 127]
+                scaled.round().clamp(-128.0, 127.0) as i8
+            })
+            .collect();
+    }
+
     v.iter()
         .map(|&x| {
             let normalized = (x - min) / range; // [0, 1]
